@@ -642,6 +642,10 @@ def tolerance_behaviour(rf, rg):
     """the imported region must decide `point in region` like the exported one just outside the faces: at half and
     twice the exported tolerance band and at 1e-13 / 1e-11 of the axis scale (a zero factor contains none of them)"""
     bad = []
+    if not (np.array_equal(rf.pmin, rg.pmin) and np.array_equal(rf.pmax, rg.pmax)):
+        # sound only for identical corners (corners rebuilt from coordinates differ by rounding, and a probe half a
+        # tolerance band outside a face may then fall on the other side); differing corners have clauses of their own
+        return bad
     pmin, pmax = np.asarray(rf.pmin, dtype=float), np.asarray(rf.pmax, dtype=float)
     edges = pmax - pmin
     tf = float(rf.tolerance_factor)
